@@ -5,6 +5,7 @@ mod gen_a;
 mod gen_b;
 mod gen_c;
 mod gen_d;
+mod history;
 mod pinned;
 mod refenc;
 mod misc;
